@@ -149,3 +149,22 @@ def explore(make_run, preemptions=2, max_schedules=3000, rng=None, random_schedu
         res, outcome = make_run(choose)
         out.append((res["trace"], outcome))
     return out
+
+
+def explore_insertions(make_run, main=0, other=1, other_budget=400):
+    """Every schedule of the form: thread `main` runs i steps, thread `other` runs to completion, `main` finishes -- for every i.  This is the complete set of
+    single-preemption schedules of a long call against a short one; the DFS of explore() reaches them only with a large schedule budget."""
+    out = []
+    res, outcome = make_run(lambda step, runnable, cur: main if main in runnable else runnable[0])
+    n = sum(1 for t in res["trace"] if t == main)
+    out.append((res["trace"], outcome))
+    for i in range(n + 1):
+        prefix = [main] * i + [other] * other_budget
+
+        def choose(step, runnable, cur, prefix=prefix):
+            if step < len(prefix) and prefix[step] in runnable:
+                return prefix[step]
+            return main if main in runnable else runnable[0]
+        res, outcome = make_run(choose)
+        out.append((res["trace"], outcome))
+    return out
